@@ -210,6 +210,20 @@ def make_om(rng, kind, nrows):
     raise ValueError(kind)
 
 
+TOL_GRIDS = [("big", 2.5e5, 1.0, 0.5), ("huge", 1e8, 1.0, 1e-3), ("tiny", 0.0, 1e-9, 3e-10), ("big-fine", 4.0e6, 0.25, 0.125)]
+
+
+def tolerance_pair(rng, N, kind=None):
+    """a grid with extreme coordinates and an equal-length copy shifted by a fraction of a cell that np.allclose
+    (rtol 1e-5, atol 1e-8) would call equal; no node of the copy coincides with a node of the grid"""
+    name, off, sp, sh = kind or rng.choice(TOL_GRIDS)
+    g = off + sp * np.arange(N, dtype=float)
+    g2 = g + sh
+    g2[-1] = g[-1] - sh
+    assert np.allclose(g, g2) and not np.any(g == g2)
+    return g, g2, name, sp, sh
+
+
 # ----------------------------------------------------------------------------------------------- generators of forms
 def gen_time_family(rng, n, flavour):
     """structured PDE forms; returns dict F (arrays or None), np (parameter length)"""
@@ -317,6 +331,7 @@ def run(ctx):
     check_observe_steady(ctx, cuqi, rng, 120 * S, bump)
     check_pipeline(ctx, cuqi, rng, 150 * S, bump)
     check_gradient(ctx, cuqi, rng, 64 * S)
+    check_histories(ctx, cuqi, rng, 60 * S, bump)
     check_testproblems(ctx, cuqi, rng, thorough)
 
 
@@ -555,9 +570,14 @@ def check_grids(ctx, cuqi, rng, ncases):
     from cuqi.pde import SteadyStateLinearPDE, TimeDependentLinearPDE
     pool = [None, np.array([0.0, 1.0, 2.0]), np.array([0.0, 1.0, 2.0]), np.array([0.0, 1.0, 2.5]), np.array([0.0, 1.0]),
             np.array([0.5, 1.5]), np.array([0.0, 0.5, 1.0, 1.5])]
+    for kind in TOL_GRIDS:     # pairs a tolerance-based comparison would call equal
+        g, g2, _, _, _ = tolerance_pair(rng, 3, kind)
+        pool += [g, g2, g.copy()]
     cases, lines = [], []
     for c in range(ncases):
         a, b = rng.choice(pool), rng.choice(pool)
+        if c < 2 * len(TOL_GRIDS):
+            a, b = pool[7 + 3 * (c // 2)], pool[7 + 3 * (c // 2) + 1 + (c % 2)]     # shifted copy / exact copy
         ops = [("init", a, b)]
         for _ in range(rng.randint(0, 4)):
             ops.append((rng.choice(["sol", "obs"]), rng.choice(pool), None))
@@ -719,10 +739,27 @@ def check_observe_time(ctx, cuqi, rng, ncases, bump):
             T = float(ts[-1]); k = [2, 3, 0][c]
             tobs, ttok, tclass = np.array([T] * k), "v:" + qv([T] * k), f"all-final-len{k}"
             grid_sol_none = False
+        if 3 <= c < 3 + 2 * len(TOL_GRIDS) or (c >= 40 and rng.random() < 0.10):
+            # grids / times that differ by less than a tolerance-based comparison would notice: exact comparison is demanded
+            kind = TOL_GRIDS[(c - 3) % len(TOL_GRIDS)] if c < 40 else None
+            N = max(N, 4); nt = max(nt, 4); grid_sol_none = False
+            if c % 2 == 1 or c >= 40 and rng.random() < 0.5:      # shifted observation grid, final time
+                gs, go, nm, _, _ = tolerance_pair(rng, N, kind)
+                gclass = "tolerance-shift-" + nm
+                ts = gen_times(rng, nt, rng.choice(["uniform", "nonuniform"]))
+                s_ = rng.choice(["final", "FINAL"]); tobs, ttok, tclass = s_, "str:" + s_, "final"
+            else:                                                 # equal grids, observation time a hair before the final time
+                nm, off, sp, sh = kind or rng.choice(TOL_GRIDS)
+                gs = 0.5 * np.arange(N, dtype=float)
+                ts = off + sp * np.arange(nt, dtype=float)
+                tnear = float(ts[-1] - sh)
+                assert np.allclose(ts[-1:], [tnear]) and tnear != ts[-1]
+                go, gclass = (None, "none") if rng.random() < 0.5 else (gs.copy(), "equal-copy")
+                tobs, ttok, tclass = np.array([tnear]), "v:" + qv([tnear]), "near-final-" + nm
         if tclass == "all-final-len0" and (grid_sol_none or gclass not in ("none", "equal-copy")):
             # an array with a zero-length time axis has no faithful list representation on the interpolation branch
             tobs, ttok, tclass = np.array([float(ts[-1])]), "v:" + qv([float(ts[-1])]), "explicit-final"
-        ndim = 3 if rng.random() < 0.08 else 2
+        ndim = 3 if (rng.random() < 0.08 and not gclass.startswith("tolerance") and not tclass.startswith("near-final")) else 2
         U = dym(rng, N, nt, -4, 4, 4)
         if ndim == 3:
             U3 = np.stack([U, U + 1.0], axis=0)
@@ -856,9 +893,14 @@ def check_observe_steady(ctx, cuqi, rng, ncases, bump):
         for i in range(1, N):
             gs[i] = gs[i - 1] + rng.choice([0.25, 0.5, 1.0])
         go, gclass = gen_obs_grid(rng, gs)
+        tolcase = c < len(TOL_GRIDS) or rng.random() < 0.10
+        if tolcase:                # equal-length grids that a tolerance-based comparison would call equal
+            N = max(N, 4)
+            gs, go, nm, _, _ = tolerance_pair(rng, N, TOL_GRIDS[c] if c < len(TOL_GRIDS) else None)
+            gclass = "tolerance-shift-" + nm
         u = dyv(rng, N, -4, 4, 4)
         gops = [("init", gs, go)]
-        if rng.random() < 0.3:     # re-assign grids after construction
+        if rng.random() < 0.3 and not tolcase:     # re-assign grids after construction
             g2, _ = gen_obs_grid(rng, gs, allow_none=False)
             gops.append(("obs", g2, None)); go_final = g2; gclass = "reassigned"
         else:
@@ -936,6 +978,9 @@ def check_pipeline(ctx, cuqi, rng, ncases, bump):
         N = rng.choice([4, 5, 6])
         gs = np.arange(1, N + 1) * rng.choice([0.25, 0.5, 1.0])
         go, gclass = gen_obs_grid(rng, gs)
+        if c % 10 == 9:
+            gs, go, nm, _, _ = tolerance_pair(rng, N)
+            gclass = "tolerance-shift-" + nm
         go_eff = gs if go is None else go
         skind = rng.choice(["default", "plain", "kw", "t1", "t2", "t3"])
         solver, kwargs, dk = make_solver(skind)
@@ -1189,6 +1234,232 @@ def check_gradient(ctx, cuqi, rng, ncases):
         gm = np.array([float(x) for x in pv(out)])
         if not arr_same(gm, got):
             ctx.disagree(key, desc, short(gm), short(got), "gradient differs from the dispatch rule")
+
+
+# ----------------------------------------------------------------------------------------------- G2. call histories on ONE object
+def check_histories(ctx, cuqi, rng, ncases, bump):
+    """One PDE object and one PDEModel, a history of calls and re-configurations.  After every forward/gradient/observe the
+    result must be that of the assemble-solve-observe pipeline for the CURRENT parameter value and the CURRENT configuration:
+    the reference is a freshly constructed PDE object with that configuration (oracle) and the exact model (tie)."""
+    from cuqi.pde import SteadyStateLinearPDE, TimeDependentLinearPDE
+    from cuqi.model import PDEModel
+    from cuqi.geometry import Continuous1D
+    cov = ctx.extra_cov["c18"].setdefault("history_ops", {})
+    pending = []      # (line, y, key, desc)
+    for c in range(ncases):
+        steady = (c % 3 == 0)
+        N = rng.choice([4, 5, 6])
+        gs = np.arange(1, N + 1) * rng.choice([0.25, 0.5, 1.0])
+        F = {"n": N}
+        if steady:
+            flavour = rng.choice(["poisson", "source"])
+            if flavour == "poisson":
+                npar = N + 1; F.update(D=fd(N), E=np.eye(N + 1), b0=dyv(rng, N) + 3.0)
+                newx = lambda: np.array([dy(rng, 0.5, 3, 4) for _ in range(npar)])
+            else:
+                npar = N; F.update(A0=-laplace(N), b0=dyv(rng, N), B=np.eye(N))
+                newx = lambda: dyv(rng, npar)
+        else:
+            flavour = rng.choice(["heat-ic", "heat-source", "op-t", "ic-t"])
+            F, npar = gen_time_family(rng, N, flavour)
+            F["A0"] = laplace(N)
+            newx = lambda: dyv(rng, npar)
+
+        def new_ts():
+            nt = rng.choice([4, 5, 6])
+            t = gen_times(rng, nt, rng.choice(["uniform", "nonuniform"]))
+            return (t - t[0]) / 4
+
+        def new_go():
+            g, _ = gen_obs_grid(rng, gs)
+            return g
+
+        def new_om(go):
+            kind = rng.choice(["id", "sq", "sc", "take"])
+            return make_om(rng, kind, len(gs if go is None else go))
+        cfg = {"go": new_go(), "method": rng.choice(METHODS), "ts": None if steady else new_ts()}
+        cfg["om"], cfg["omtok"] = new_om(cfg["go"])
+        if not steady:
+            tob, _, tcl = gen_tobs(rng, cfg["ts"])
+            while tcl in ("bad-string", "none") or tcl.startswith("all-final-len"):
+                tob, _, tcl = gen_tobs(rng, cfg["ts"])
+            cfg["tobs_arg"] = tob
+
+        def build(cfg, cls_s=SteadyStateLinearPDE, cls_t=TimeDependentLinearPDE):
+            if steady:
+                return cls_s(lambda par, F=F: fam_eval(F, par, 0.0)[:2], grid_sol=gs, grid_obs=cfg["go"], observation_map=cfg["om"])
+            return cls_t(lambda par, t, F=F: fam_eval(F, par, t), cfg["ts"], method=cfg["method"], time_obs=cfg["tobs_arg"],
+                         grid_sol=gs, grid_obs=cfg["go"], observation_map=cfg["om"])
+
+        def fresh_forward(cfg, xv):
+            c2 = dict(cfg)
+            if not steady:
+                c2["tobs_arg"] = cfg["tobs"]
+            f_ = build(c2)
+            f_.assemble(np.array(xv, dtype=float)); s_, _ = f_.solve()
+            return np.asarray(f_.observe(s_), dtype=float)
+
+        def fresh_jac(cfg, xv):
+            """central-difference Jacobian of the pipeline of a FRESH object with configuration cfg"""
+            return np.column_stack([(fresh_forward(cfg, xv + 0.25 * e) - fresh_forward(cfg, xv - 0.25 * e)).ravel() / 0.5 for e in np.eye(npar)])
+        jac_calls = []
+
+        def jacobian_wrt_parameter(self, wrt, cfg=cfg, jac_calls=jac_calls):      # reads the configuration current at call time
+            jac_calls.append(np.array(wrt, dtype=float))
+            return fresh_jac(cfg, np.array(wrt, dtype=float))
+        SJ = type("SteadyJ", (SteadyStateLinearPDE,), {"jacobian_wrt_parameter": jacobian_wrt_parameter})
+        TJ = type("TimeJ", (TimeDependentLinearPDE,), {"jacobian_wrt_parameter": jacobian_wrt_parameter})
+        try:
+            with quiet():
+                pde = build(cfg, SJ, TJ)
+                model = PDEModel(pde, Continuous1D(N), Continuous1D(npar))
+        except Exception as e:  # noqa
+            ctx.note(f"history object could not be built: {type(e).__name__}")
+            continue
+        if not steady:
+            cfg["tobs"] = np.asarray(pde._time_obs, dtype=float).copy()
+        xref = None
+        hist = []
+        nops = rng.randint(5, 10)
+        for step in range(nops):
+            r = rng.random()
+            if xref is None or r < 0.16:
+                op = "fwd_new"
+            elif r < 0.36:
+                op = "fwd_inplace"
+            elif r < 0.50:
+                op = "fwd_equal_copy"
+            elif r < 0.58:
+                op = "set_grid_obs"
+            elif r < 0.65:
+                op = "set_om"
+            elif r < 0.73:
+                op = "set_method" if not steady else "set_grid_obs"
+            elif r < 0.80:
+                op = "set_ts" if not steady else "set_om"
+            elif r < 0.86:
+                op = "set_tobs" if not steady else "manual"
+            elif r < 0.91:
+                op = "manual"
+            elif r < 0.96:
+                op = "grad"
+            else:
+                op = "assemble_other"
+            cov[op] = cov.get(op, 0) + 1
+            y, xval, what = None, None, None
+            herr = None
+            try:
+                with quiet():
+                    if op == "fwd_new":
+                        xref = newx(); xval = xref.copy(); y = model.forward(xref)
+                    elif op == "fwd_inplace":
+                        k = rng.randint(0, npar - 1)
+                        xref[k] += rng.choice([1.0, 0.5, 2.0])          # the SAME ndarray, modified in place
+                        xval = xref.copy(); y = model.forward(xref)
+                    elif op == "fwd_equal_copy":
+                        x2 = xref.copy(); xval = x2.copy(); y = model.forward(x2)
+                    elif op == "set_grid_obs":
+                        cfg["go"] = new_go(); pde.grid_obs = cfg["go"]
+                        if cfg["omtok"].startswith("take") or cfg["omtok"].startswith("left"):
+                            pass
+                    elif op == "set_om":
+                        cfg["om"], cfg["omtok"] = new_om(cfg["go"]); pde.observation_map = cfg["om"]
+                    elif op == "set_method":
+                        cfg["method"] = [m for m in METHODS if m != cfg["method"]][0]; pde.method = cfg["method"]
+                    elif op == "set_ts":
+                        old = cfg["ts"]
+                        t = new_ts()
+                        t = old[0] + (t - t[0]) * (old[-1] - old[0]) / (t[-1] - t[0])     # same span, other levels
+                        t[-1] = old[-1]
+                        cfg["ts"] = t; pde.time_steps = t
+                    elif op == "set_tobs":
+                        tob, _, tcl = gen_tobs(rng, cfg["ts"])
+                        while isinstance(tob, str) or tob is None or tcl.startswith("all-final-len"):
+                            tob, _, tcl = gen_tobs(rng, cfg["ts"])
+                        cfg["tobs"] = np.asarray(tob, dtype=float); pde._time_obs = cfg["tobs"]
+                    elif op == "manual":
+                        xm = newx(); xval = xm.copy()
+                        pde.assemble(xm); sol_m, _ = pde.solve(); y = pde.observe(sol_m)
+                    elif op == "assemble_other":
+                        pde.assemble(newx())        # leaves another parameter assembled; the next forward must not use it
+                    elif op == "grad":
+                        y0 = fresh_forward(cfg, xref)
+                        if y0.ndim == 1 and len(y0) >= 1:
+                            direction = dyv(rng, len(y0)); direction[0] += 1.0
+                            del jac_calls[:]
+                            g = np.asarray(model.gradient(direction, xref), dtype=float)
+                            gref = direction @ fresh_jac(cfg, xref.copy())
+                            gdesc = {"pde": "steady" if steady else "time", "flavour": flavour, "history": list(hist) + ["grad"], "x": xref.tolist(),
+                                     "direction": direction.tolist(), "obs_map": cfg["omtok"]}
+                            ctx.case("history-gradient", gdesc)
+                            gkey = f"PDEModel.gradient:history:{'steady' if steady else 'time'}"
+                            if not arr_same(gref, g, 1e-9) or not (jac_calls and np.array_equal(jac_calls[0], xref)):
+                                ctx.fail(gkey, gdesc, "direction @ Jacobian of the current pipeline at the current parameter: " + short(gref), short(g),
+                                         "gradient on a re-used object is not that of the pipeline for the current parameter and configuration")
+            except Exception as e:  # noqa
+                herr = type(e).__name__
+            hist.append(op)
+            if xval is None:
+                continue
+            # ---- reference: a fresh object with the current configuration
+            desc = {"pde": "steady" if steady else "time", "flavour": flavour, "N": N, "history": list(hist), "x": xval.tolist(), "grid_sol": gs.tolist(),
+                    "grid_obs": None if cfg["go"] is None else np.asarray(cfg["go"]).tolist(), "obs_map": cfg["omtok"]}
+            if not steady:
+                desc.update(method=cfg["method"], time_steps=cfg["ts"].tolist(), time_obs=cfg["tobs"].tolist())
+            last_reconf = next((h for h in reversed(hist[:-1]) if h.startswith("set_") or h in ("manual", "assemble_other")), "none")
+            if any(h.startswith("fwd") for h in hist[:-1]):
+                idx_prev_fwd = max(i for i, h in enumerate(hist[:-1]) if h.startswith("fwd") or h == "manual")
+                since = [h for h in hist[idx_prev_fwd + 1:-1]]
+                last_reconf = since[-1] if since else "none"
+            key = f"PDEModel.forward:history:{'steady' if steady else 'time'}:{op}:after-{last_reconf}"
+            ctx.case("history-" + ("steady" if steady else "time"), desc)
+            rerr, ref, rsol = None, None, None
+            try:
+                with quiet():
+                    c2 = dict(cfg)
+                    if not steady:
+                        c2["tobs_arg"] = cfg["tobs"]
+                    fresh = build(c2)
+                    fresh.assemble(xval.copy()); rsol, _ = fresh.solve(); ref = np.asarray(fresh.observe(rsol), dtype=float)
+                    rsol = np.asarray(rsol, dtype=float)
+            except Exception as e:  # noqa
+                rerr = type(e).__name__
+            if rerr is not None:
+                if herr is None:
+                    ctx.note(f"history call returns where a fresh object with the same configuration raises {rerr}: {hist}")
+                continue
+            if herr is not None:
+                ctx.fail(key, desc, "output of the pipeline for the current parameter and configuration: " + short(ref), "err:" + herr,
+                         "a call on a re-used object raises where a fresh object with the same configuration succeeds")
+                continue
+            y = np.asarray(y, dtype=float)
+            if not arr_same(ref, y, 1e-12):
+                ctx.fail(key, desc, "pipeline for the CURRENT parameter/configuration (fresh object): " + short(ref), short(y),
+                         "output of a re-used PDE/PDEModel object is not that of the assemble-solve-observe pipeline for the current parameter and configuration")
+            # ---- tie: the exact model at the current configuration
+            go_eff = gs if cfg["go"] is None else np.asarray(cfg["go"], dtype=float)
+            gtok = f"init:{grid_tok(gs)}:{grid_tok(cfg['go'])}"
+            try:
+                with quiet():
+                    if steady:
+                        Wtok = qv(np.asarray(scipy.interpolate.interp1d(gs, rsol, kind="quadratic")(go_eff), dtype=float))
+                    else:
+                        Wm = np.asarray(scipy.interpolate.RectBivariateSpline(gs, cfg["ts"], rsol)(go_eff, cfg["tobs"]), dtype=float)
+                        Wtok = qm(Wm)
+            except Exception:
+                Wtok = "err"
+            if steady:
+                line = f"pipes {N} plain {fam_tokens(F)} {qv(xval)} {gtok} {Wtok} {cfg['omtok']}"
+            else:
+                line = f"pipet {N} {cfg['method']} plain {qv(cfg['ts'])} {fam_tokens(F)} {qv(xval)} {gtok} v:{qv(cfg['tobs'])} {Wtok} {cfg['omtok']}"
+            pending.append((line, y, key, desc))
+    outs = ctx.lean.drive([p_[0] for p_ in pending])
+    for (line, y, key, desc), out in zip(pending, outs):
+        if out.startswith("err:") or out == "bad-op":
+            ctx.disagree(key, desc, out, short(y), "model refuses, implementation returns")
+            continue
+        if not arr_same(parse_arr(out), y):
+            ctx.disagree(key, desc, short(parse_arr(out)), short(y), "output after this history differs from the exact pipeline at the current configuration")
 
 
 # ----------------------------------------------------------------------------------------------- H. shipped test problems
